@@ -13,6 +13,7 @@ mod names;
 mod primcheck;
 mod prims;
 mod replay;
+mod trace;
 mod resolver;
 mod util;
 
@@ -47,6 +48,7 @@ fn main() {
         "fallback" => fallback::main(&opts),
         "fuzz" => fuzz::main(&opts),
         "prims" => primcheck::main(&opts),
+        "trace" => trace::main(&opts),
         _ => usage(),
     };
     match r {
